@@ -262,7 +262,7 @@ fn run(ctx: &Arc<Ctx>) {
     }
     ctx.run_enumerated("all-sizes", "bitmap", syms, None, check);
     let maxdim = if ctx.quick() { 64 } else { 177 };
-    ctx.run_generated("small", "bitmap", ctx.cases(300_000, 4_000_000), g_small, check);
+    ctx.run_generated("small", "bitmap", ctx.cases(600_000, 6_000_000), g_small, check);
     ctx.run_generated("arbitrary", "bitmap", ctx.cases(100_000, 1_500_000), || g_arbitrary(maxdim), check);
     ctx.run_generated("structured", "bitmap", ctx.cases(100_000, 1_500_000), || g_structured(maxdim), check);
     ctx.run_generated("symbols", "bitmap", ctx.cases(20_000, 400_000), g_symbol, check);
